@@ -125,6 +125,7 @@ def register(kind):
 
 
 def main():
+    sys.modules.setdefault('replay.run', sys.modules['__main__'])    # handler modules import `register` from here
     with open(sys.argv[1]) as f:
         req = json.load(f)
     # optional extra handler modules
